@@ -68,9 +68,10 @@ struct SimSource {
     bool end_is_zero = false;      // at end of data return 0 instead of -ENODATA (never used by default)
     // optional: the stream really lives in one of the library's own sources (source_from_buffer / source_from_chunks); the scripted
     // driver then sits in front of it and passes every transfer on, so that the library's driver functions are what moves the octets
-    Source *inner = nullptr; bool inner_overrun = false;
+    Source *inner = nullptr; bool inner_overrun = false; int inner_failed = 0;   // inner_failed: the library's source reported an error although the stream has not ended
     ssize_t pass_on(void *buf, size_t k) {
         ssize_t r = inner->source.chunk(inner->driver, buf, k);
+        if (r < 0 && pos < data.size() && k > 0 && !inner_failed) inner_failed = (int)r;
         if (r > 0) { if ((size_t)r > k || pos + (size_t)r > data.size()) inner_overrun = true; pos += (size_t)r; if (pos > data.size()) pos = data.size(); }
         return r;
     }
